@@ -160,7 +160,7 @@ def run_c03(pid):
     plan_list = [P.stream_plan(rnd, i + 1, small=(t == "quick" or i % 10 != 0)) for i in range(n)]
     plan_list += P.directed_valid(n + 100)
     # the template of the long variable-blocksize stream (sample numbers beyond 2^31, the 36-bit range): ONE model-made frame of 65535
-    # constant samples, which the driver repeats 32771 times with the sample numbers recoded (harness decodeh::long_variable)
+    # constant samples, which the driver repeats 65540 times (4 295 163 900 samples: beyond 2^31 and beyond 2^32) with the sample numbers recoded (harness decodeh::long_variable)
     long_id = n + 90
     plan_list.append({"id": long_id, "channels": 1, "bps": 8, "rate": 44100, "ratecode": "table", "bpscode": "hdr", "variable": True, "total_known": True,
                       "md5": "zero", "subset": True, "long_template": True,
@@ -183,7 +183,7 @@ def run_c03(pid):
             s0 += f["bs"]
         if p.get("long_template"):
             items.append({"id": g["id"], "bytes": g["bytes"], "bps": p["bps"], "metaLen": g["metaLen"], "frameLens": g["frameLens"], "valid": True,
-                          "md5mode": "zero", "subset": True, "class": "long-variable", "repeat_frame": 32771, "plan": {k: p[k] for k in p if k != "pcm"}})
+                          "md5mode": "zero", "subset": True, "class": "long-variable", "repeat_frame": 65540, "plan": {k: p[k] for k in p if k != "pcm"}})
             continue
         items.append({"id": g["id"], "bytes": g["bytes"], "pcm": g["pcm"], "bps": p["bps"], "metaLen": g["metaLen"], "frameLens": g["frameLens"],
                       "layout": lay, "valid": True, "md5mode": p["md5"], "subset": p["subset"], "class": "valid",
